@@ -57,21 +57,24 @@ package backend
 //@ ghost func rsNLogs(rs ref, i int) int = evRcNLogs(brEvB(rs, i), brEvO(rs, i), brEvL(rs, i))
 
 // Gas that the transaction at RAW block position i contributes to the cumulative gas of a later transaction, as the
-// synthetic-receipt code counts it: only transactions that decode to exactly one MsgEthereumTx count; with a receipt
-// event: the gas used recorded there; without one (failed after the ante handler): the gas limit; an unreadable receipt
-// event contributes nothing (never produced by consensus: C13.event_renders_receipt).
-//@ ghost func prevGasAt(dec ref, blk ref, rs ref, i int) int = (txDecodes(dec, blkTxBytes(blk, i)) && singleEthBytes(blkTxBytes(blk, i))) ? (rsErr(rs, i) ? 0 : (rsHas(rs, i) ? rsGasUsed(rs, i) : decGas(ethTxOfBytes(blkTxBytes(blk, i))))) : 0
+// synthetic-receipt code counts it (after fix F-rpc-1): a result of a transaction that was dropped / rejected before or in
+// the ante handler (brDropped) counts nothing; otherwise only transactions that decode to exactly one MsgEthereumTx count;
+// with a receipt event: the gas used recorded there; without one (failed after the ante handler): the gas limit; an
+// unreadable receipt event contributes nothing (never produced by consensus: C13.event_renders_receipt).
+//@ ghost func ethGasAt(dec ref, blk ref, rs ref, i int) int = (txDecodes(dec, blkTxBytes(blk, i)) && singleEthBytes(blkTxBytes(blk, i))) ? (rsErr(rs, i) ? 0 : (rsHas(rs, i) ? rsGasUsed(rs, i) : decGas(ethTxOfBytes(blkTxBytes(blk, i))))) : 0
+//@ ghost func prevGasAt(dec ref, blk ref, rs ref, i int) int = brDropped(rs, i) ? 0 : ethGasAt(dec, blk, rs, i)
 // prevGasTo(.., n) = sum of prevGasAt over the raw positions 0 .. n-1 (definition by recursion on n)
 //@ ghost func prevGasTo(dec ref, blk ref, rs ref, n int) int
 //@ axiom[C14] prev_gas_zero: forall d ref, b ref, r ref, n int :: {prevGasTo(d, b, r, n)} n <= 0 ==> prevGasTo(d, b, r, n) == 0
 //@ axiom[C14] prev_gas_step: forall d ref, b ref, r ref, n int :: {prevGasTo(d, b, r, n + 1)} n >= 0 ==> prevGasTo(d, b, r, n + 1) == prevGasTo(d, b, r, n) + prevGasAt(d, b, r, n)
 
-// What CONSENSUS records for the earlier transactions (C13; replayed: docs/findings-rpc.md F-rpc-1): a transaction that
-// was rejected by the ante handler (anteRejectedEth: Ethereum-shaped, non-zero code, no ethereum_tx event) is NOT counted;
-// everything else as above. consGasTo is the consensus sum; the code's sum prevGasTo agrees with it exactly when no
-// earlier Ethereum transaction of the block was rejected by the ante handler (C14.prev_loop_cumulative_consensus).
+// What CONSENSUS records for the earlier transactions (C13; finding F-rpc-1, docs/findings-rpc.md): an Ethereum transaction
+// that was rejected by the ante handler (anteRejectedEth: Ethereum-shaped, non-zero code, no ethereum_tx event) is NOT
+// counted; every other Ethereum-shaped transaction with ethGasAt. consGasTo is the consensus sum; since the fix the code's
+// sum prevGasTo is the same function (C14.prev_loop_cumulative_consensus / C14.synthetic_cumulative_gas_consensus hold
+// unconditionally; the original code — selftest mutant C14_rpc_receipt_counts_ante_rejected_txs — breaks them).
 //@ ghost func anteRejectedEth(dec ref, blk ref, rs ref, i int) bool = txDecodes(dec, blkTxBytes(blk, i)) && singleEthBytes(blkTxBytes(blk, i)) && brDropped(rs, i)
-//@ ghost func consGasAt(dec ref, blk ref, rs ref, i int) int = anteRejectedEth(dec, blk, rs, i) ? 0 : prevGasAt(dec, blk, rs, i)
+//@ ghost func consGasAt(dec ref, blk ref, rs ref, i int) int = anteRejectedEth(dec, blk, rs, i) ? 0 : ethGasAt(dec, blk, rs, i)
 //@ ghost func consGasTo(dec ref, blk ref, rs ref, n int) int
 //@ axiom[C14] cons_gas_zero: forall d ref, b ref, r ref, n int :: {consGasTo(d, b, r, n)} n <= 0 ==> consGasTo(d, b, r, n) == 0
 //@ axiom[C14] cons_gas_step: forall d ref, b ref, r ref, n int :: {consGasTo(d, b, r, n + 1)} n >= 0 ==> consGasTo(d, b, r, n + 1) == consGasTo(d, b, r, n) + consGasAt(d, b, r, n)
@@ -251,6 +254,7 @@ package backend
 // (the block hash is written into the logs of the freshly parsed receipt; the frame names the field, not the objects)
 //@   modifies txSrc, fieldof(type(ethtypes.Log), BlockHash)
 //@   panics any
+//@   at call TxReceiptFromEvent@2 assert[C14.prev_loop_counted_tx] !brDropped(blockRes, txIdx) && txDecodes(b.clientCtx.TxConfig.TxDecoder(), blkTxBytes(resBlock, txIdx)) && singleEthBytes(blkTxBytes(resBlock, txIdx)) && bytes(prevEthMsg.MarshalledTx) == ethTxOfBytes(blkTxBytes(resBlock, txIdx))
 //@   at call NewRPCReceiptFromReceipt@1 assert[C14.receipt_msg_is_this_tx] singleEthBytes(blkTxBytes(resBlock, res.TxIndex)) ==> bytes(ethMsg.MarshalledTx) == ethTxOfBytes(blkTxBytes(resBlock, res.TxIndex))
 //@   at call NewRPCReceiptFromReceipt@1 assert[C14.receipt_branch_by_own_result] (icReceipt != nil) == rsHas(blockRes, res.TxIndex) && !rsErr(blockRes, res.TxIndex)
 //@   at call NewRPCReceiptFromReceipt@1 assert[C14.receipt_from_own_result] icReceipt != nil ==> (receipt == icReceipt.Receipt && receipt != nil && receipt.GasUsed == rsGasUsed(blockRes, res.TxIndex) && receipt.CumulativeGasUsed == rsCumGas(blockRes, res.TxIndex) && receipt.Status == rsStatus(blockRes, res.TxIndex) && receipt.Type == rsType(blockRes, res.TxIndex) && receipt.TransactionIndex == rsTxIndex(blockRes, res.TxIndex) && receipt.TxHash == rsTxHash(blockRes, res.TxIndex) && receipt.ContractAddress == rsContract(blockRes, res.TxIndex) && len(receipt.Logs) == rsNLogs(blockRes, res.TxIndex))
@@ -260,12 +264,12 @@ package backend
 //@   at call NewRPCReceiptFromReceipt@1 assert[C14.synthetic_tx_index] icReceipt == nil ==> receipt.TransactionIndex == asU64(res.EthTxIndex)
 //@   at call NewRPCReceiptFromReceipt@1 assert[C14.synthetic_tx_hash] icReceipt == nil ==> (receipt.TxHash == decHash(bytes(ethMsg.MarshalledTx)) && receipt.Type == decType(bytes(ethMsg.MarshalledTx)))
 //@   at call NewRPCReceiptFromReceipt@1 assert[C14.synthetic_cumulative_gas] icReceipt == nil ==> receipt.CumulativeGasUsed == (decGas(bytes(ethMsg.MarshalledTx)) + (res.EthTxIndex > 0 ? prevGasTo(b.clientCtx.TxConfig.TxDecoder(), resBlock, blockRes, res.TxIndex) : 0)) % pow2(64)
-//@   at call NewRPCReceiptFromReceipt@1 assert[C14.synthetic_cumulative_gas_consensus] (icReceipt == nil && res.EthTxIndex > 0 && (forall i int :: {brDropped(blockRes, i)} (0 <= i && i < res.TxIndex) ==> !anteRejectedEth(b.clientCtx.TxConfig.TxDecoder(), resBlock, blockRes, i))) ==> receipt.CumulativeGasUsed == (decGas(bytes(ethMsg.MarshalledTx)) + consGasTo(b.clientCtx.TxConfig.TxDecoder(), resBlock, blockRes, res.TxIndex)) % pow2(64)
+//@   at call NewRPCReceiptFromReceipt@1 assert[C14.synthetic_cumulative_gas_consensus] (icReceipt == nil && res.EthTxIndex > 0) ==> receipt.CumulativeGasUsed == (decGas(bytes(ethMsg.MarshalledTx)) + consGasTo(b.clientCtx.TxConfig.TxDecoder(), resBlock, blockRes, res.TxIndex)) % pow2(64)
 //@   at call NewRPCReceiptFromReceipt@1 assert[C14.synthetic_block] icReceipt == nil ==> (receipt.BlockHash == hashOfBytes(bytes(resBlock.BlockID.Hash)) && receipt.BlockNumber != nil && bigval[receipt.BlockNumber] == blockRes.Height)
 //@ loop 1
 //@   modifies res.EthTxIndex
 //@ loop 2
 //@   modifies txSrc
 //@   invariant[C14.prev_loop_bounds] -1 <= rangeindex && rangeindex < res.TxIndex && res.TxIndex <= len(resBlock.Block.Data.Txs)
-//@   invariant[C14.prev_loop_cumulative_consensus] (forall i int :: {brDropped(blockRes, i)} (0 <= i && i <= rangeindex) ==> !anteRejectedEth(b.clientCtx.TxConfig.TxDecoder(), resBlock, blockRes, i)) ==> cumulativeGasUsed == (txGas(ethTx) + consGasTo(b.clientCtx.TxConfig.TxDecoder(), resBlock, blockRes, rangeindex + 1)) % pow2(64)
+//@   invariant[C14.prev_loop_cumulative_consensus] prevGasTo(b.clientCtx.TxConfig.TxDecoder(), resBlock, blockRes, rangeindex + 1) == consGasTo(b.clientCtx.TxConfig.TxDecoder(), resBlock, blockRes, rangeindex + 1)
 //@   invariant[C14.prev_loop_cumulative] cumulativeGasUsed == (txGas(ethTx) + prevGasTo(b.clientCtx.TxConfig.TxDecoder(), resBlock, blockRes, rangeindex + 1)) % pow2(64)
